@@ -30,8 +30,8 @@ def tlc_project(p: T.Optional[T.Dict[str, T.Any]]) -> T.Dict[str, T.Any]:
         return dict(EMPTY_P)
     ts = []
     for t in p['targets']:
-        ts.append({k: t[k] for k in ('kind', 'name', 'subdir', 'sp', 'srcs', 'gen', 'genlist', 'link', 'bbd', 'install',
-                                     'outs', 'deps')})
+        ts.append({k: t.get(k, []) for k in ('kind', 'name', 'subdir', 'sp', 'srcs', 'gen', 'genidx', 'genlist', 'link', 'bbd',
+                                             'install', 'outs', 'deps')})
     xs = []
     for x in p['tests']:
         xs.append({k: x[k] for k in ('name', 'exe', 'depends', 'args', 'sargs', 'bench', 'suite', 'env', 'sp', 'script')})
